@@ -20,7 +20,7 @@ RULE = (
     "writers with an identical whole directory) and (threads: a third of the writers stage a second directory before transferring the first; one writer of an identical directory may lose a source file right after its status query and fail - the others must not suffer) transferring it into ONE LocalHashFileDB path while sharing ONE hash-state "
     "database; variants: threads in one process (shared State object, shared or per-thread store objects) and separate "
     "processes (own State on the same SQLite files, released together); scheduling perturbed by a seeded 0-2 ms sleep at every "
-    "filesystem-operation boundary inside the store (audit hook), thorough additionally with a 10 us switch interval.  Afterwards "
+    "filesystem-operation boundary inside the store (audit hook) and, in half of the thread runs, by seeded sleeps between statements of the store / transfer / state code (sys.monitoring LINE events), thorough additionally with a 10 us switch interval.  Afterwards "
     "every writer must have succeeded, every requested object must be present with the right bytes, every writer's directory "
     "object must list exactly what that writer staged, and every state row for a store object must be truthful.  non-trivial = "
     ">= 1 object touched by >= 2 writers; distinct = interleaving signature (order of writers over events on contended objects)"
@@ -33,7 +33,7 @@ ASSUMPTIONS = [
 MONITORS = ("per-writer manifests computed by the harness vs the shared store after the run; per-event log (monotonic ns, writer, kind, object) "
             "from the audit hook giving contended objects and interleaving signatures; State.get answers vs hashlib")
 REQUIRED_COUNTERS = ["runs", "thread_runs", "process_runs", "contended_objects", "writers_checked", "objects_audited", "state_rows_checked",
-                     "jitter_sleeps", "identical_directory_runs", "second_directories_checked", "runs_with_a_failing_identical_writer"]
+                     "jitter_sleeps", "identical_directory_runs", "second_directories_checked", "runs_with_a_failing_identical_writer", "line_jitter_runs", "line_jitter_yields"]
 
 
 def make_workspaces(rng, d, n):
@@ -210,12 +210,34 @@ def run_shard(ctx):
 
             AuditHub.add(handler)
             ths = [threading.Thread(target=writer, args=(i,), name=f"writer-{i}") for i in range(n)]
-            for t in ths:
-                t.start()
-            hung = False
-            for t in ths:
-                t.join(timeout=120)
-                hung = hung or t.is_alive()
+            # in half of the runs writers are additionally descheduled between statements inside the store / transfer / state code
+            lj = None
+            if rng.random() < 0.5:
+                import dvc_objects.db as _odbmod
+
+                import dvc_data.hashfile.db as _dbmod
+                import dvc_data.hashfile.db.local as _localmod
+                import dvc_data.hashfile.state as _statemod
+                import dvc_data.hashfile.transfer as _trmod
+
+                from ..monitors import LineJitter
+
+                lj = LineJitter([_localmod.LocalHashFileDB, _dbmod.HashFileDB, _odbmod.ObjectDB, _statemod.State, _trmod],
+                                random.Random(rng.getrandbits(64)), p=rng.choice([0.05, 0.15, 0.3]), max_sleep=rng.choice([0.0005, 0.002, 0.005]))
+                lj.__enter__()
+            try:
+                for t in ths:
+                    t.start()
+                hung = False
+                for t in ths:
+                    t.join(timeout=120)
+                    hung = hung or t.is_alive()
+            finally:
+                if lj is not None:
+                    lj.__exit__()
+                    res.count("line_jitter_runs")
+                    res.count("line_jitter_statements_seen", lj.lines)
+                    res.count("line_jitter_yields", lj.yields)
             AuditHub.remove(handler)
             if hung:
                 res.inconclusive = "writer thread did not finish within 120 s"
@@ -286,7 +308,7 @@ def run_shard(ctx):
             audit(d, trees, results, case, cfg)
             ctx.drop(d)
 
-        if case % 4 == 3:
+        if case % 8 == 7:
             ctx.guard(case, procs)
         else:
             ctx.guard(case, threads)
